@@ -107,6 +107,24 @@ def run(eng, rep, tier):
               "the table no longer takes FIRST of the whole body of a production (only of its leading symbol, or of "
               "nothing): a production whose leading variable is nullable gets the wrong predict symbols", st_,
               site=site_of(prog, ft, ft.node))
+    if restricted:
+        # the productions may be split into two lists by the nullable test and BOTH lists get FIRST-based entries (one loop
+        # each): then the range of the fill is complete although every single call is on a restricted list
+        from ..av import loc_ext as _lx
+        fills = {}
+        for ev in own(st_):
+            if ev.kind == "write" and ev.wkind == "mutate:append" and ev.recv is not None:
+                for text, pol, _n in ev.facts:
+                    if "nullable" in text.lower() or any(isinstance(d, tuple) and d and d[0] == "NULLABLE" for d in ev.ctrl):
+                        for l in ev.recv.alias:
+                            fills.setdefault(text, {}).setdefault(pol, set()).add(_lx(l, "[]"))
+        for text, by_pol in fills.items():
+            if True in by_pol and False in by_pol:
+                src = set()
+                for ev in firsts:
+                    src |= set(ev.args[0].alias) if ev.args else set()
+                if src & by_pol[True] and src & by_pol[False]:
+                    restricted = []
     ob.decide("R1", "C14.2", ft, "first-fill-range", not restricted,
               "the FIRST-based fill ranges over all productions",
               "the FIRST-based fill only ranges over productions selected by a nullability test: a nullable production "
